@@ -1,4 +1,5 @@
 import Just.Lemmas.LexerTotal
+import Just.Lemmas.LexerSafe
 import Just.Props.C12
 /-
 C11  No input makes just panic, abort, hang or report an internal error.
@@ -38,5 +39,19 @@ theorem lexer_error_never_invalid_line (w : Char → Nat) (src : List Char) (e :
     exact C12.context_none w src e.tok hg hn
   · rw [heq] at hg
     exact C12.context_none w src _ (internalError_spans _ hg) hn
+
+/-- **None of the lexer's `assert_eq!`s can fail**, on any text: neither
+`assert_eq!(self.current_token_length(), 0)` in `lex_dedent` nor the three at the end of `tokenize`
+(`token_start == token_end`, `token_start == src.len()`, `indentation.len() == 1`).  Proved through
+three invariants of the main loop: the lexer is idle (no token in progress) at every loop head, the
+indentation stack is an empty string under non-empty strings, and the loop ends with no text left.
+(Before the `fix:` for a backslash at the end of the file this was false, and the model said so.) -/
+theorem lexer_asserts_hold (src : List Char) (e : Err) (h : tokenize src = .error e) : e.kind.isAssert = false :=
+  tokenize_asserts_hold src e h
+
+/-- every round of the main loop starts with no token in progress -/
+theorem main_loop_idle (src : List Char) (s : St) (b : Bool) (s' : St) (hi : Inv src s) (hc : s.cur = [])
+    (h : stepMain s = .ok (b, s')) : s'.cur = [] :=
+  KI.stepMain.keep s b s' hi h hc
 
 end Just.C11
